@@ -4,3 +4,5 @@ import Parmcb.Props.C17
 import Parmcb.Driver.Proto
 import Parmcb.Driver.Gf2
 import Parmcb.Lemmas.Abstract
+import Parmcb.Model.Fp
+import Parmcb.Model.Graph
